@@ -13,6 +13,7 @@ import (
 	"cosmossdk.io/log"
 	storetypes "cosmossdk.io/store/types"
 	abci "github.com/cometbft/cometbft/abci/types"
+	cmtcrypto "github.com/cometbft/cometbft/proto/tendermint/crypto"
 	cmtproto "github.com/cometbft/cometbft/proto/tendermint/types"
 	dbm "github.com/cosmos/cosmos-db"
 	"github.com/cosmos/cosmos-sdk/baseapp"
@@ -177,6 +178,47 @@ func (a l2Acct) SetAccount(ctx context.Context, acc sdk.AccountI) {
 	a.AccountKeeper.SetAccount(ctx, acc)
 }
 
+// hostAnte stands for the IBC light-client update running inside a transaction (MsgUpdateClient and the
+// middleware that feeds the new validator set to opchild): a tx whose memo is "hostset:<json>" refreshes the
+// recorded L1 validator set while its ante handler runs, so the refresh shares the fate of that execution
+// (committed with a block, or discarded with a simulation / a rejected CheckTx).
+type hostAnte struct{ n *L2 }
+
+type hostMemo struct {
+	Client string   `json:"c"`
+	Height int64    `json:"h"`
+	Keys   [][]byte `json:"k"`
+	Powers []int64  `json:"p"`
+}
+
+// HostMemo encodes a validator-set refresh for a transaction memo.
+func HostMemo(u HostSetUpdate) string {
+	m := hostMemo{Client: u.ClientID, Height: u.Height}
+	for _, v := range u.Set.Validators {
+		m.Keys = append(m.Keys, v.PubKey.GetEd25519())
+		m.Powers = append(m.Powers, v.VotingPower)
+	}
+	bz, _ := json.Marshal(m)
+	return "hostset:" + string(bz)
+}
+
+func (h hostAnte) AnteHandle(ctx sdk.Context, tx sdk.Tx, simulate bool, next sdk.AnteHandler) (sdk.Context, error) {
+	if mt, ok := tx.(sdk.TxWithMemo); ok && len(mt.GetMemo()) > 8 && mt.GetMemo()[:8] == "hostset:" {
+		var m hostMemo
+		if err := json.Unmarshal([]byte(mt.GetMemo()[8:]), &m); err != nil {
+			return ctx, err
+		}
+		vs := &cmtproto.ValidatorSet{}
+		for i := range m.Keys {
+			vs.Validators = append(vs.Validators, &cmtproto.Validator{PubKey: cmtcrypto.PublicKey{Sum: &cmtcrypto.PublicKey_Ed25519{Ed25519: m.Keys[i]}}, VotingPower: m.Powers[i]})
+		}
+		if err := h.n.OK.UpdateHostValidatorSet(ctx, m.Client, m.Height, vs); err != nil {
+			return ctx, err
+		}
+	}
+	return next(ctx, tx, simulate)
+}
+
 var l2MaccPerms = map[string][]string{
 	authtypes.FeeCollectorName: nil,
 	opchildtypes.ModuleName:    {authtypes.Burner, authtypes.Minter},
@@ -278,6 +320,7 @@ func NewL2(db dbm.DB, gen *L2Genesis, opts L2Options, plans []PlanReg) *L2 {
 	app.SetAnteHandler(sdk.ChainAnteDecorators(
 		authante.NewSetUpContextDecorator(),
 		faultAnte{n.Fault},
+		hostAnte{n},
 		authante.NewDeductFeeDecorator(n.AK, n.BK, nil, opchildante.NewMempoolFeeChecker(n.OK).CheckTxFeeWithMinGasPrices),
 		opchildante.NewRedundantBridgeDecorator(n.OK),
 	))
